@@ -134,6 +134,11 @@ def main():
             return generic_replay(pid, a.replay)
         mod.check(rep, a.tier, seed, a.replay)
         extra_rounds(rep, mod, pid, a.tier, seed)
+    except core.HarnessHang as h:
+        rep.violation("real-code-does-not-return", {"case": h.case, "waited_s": h.waited,
+                                                    "what": "the real code (harness, rebuilt from /repo) did not return on this input; "
+                                                            "the model does (fuel = the code's own limits): the correspondence is broken"},
+                      found_input=False)
     except Exception:
         traceback.print_exc()
         rep.violation("check-crashed", {"trace": traceback.format_exc()[-3000:]}, found_input=False)
